@@ -121,7 +121,7 @@ pub fn run_c16(a: &Args) {
     }
     // ---- G(n,p): structure for every seed, mean edge count over S seeds
     let ns: &[i32] = if a.thorough { &[0, 1, 2, 3, 5, 10, 30, 100, 300] } else { &[0, 1, 2, 3, 5, 10, 30, 60] };
-    let ps: &[f64] = &[1e-12, 1e-9, 1e-6, 0.01, 0.1, 0.3, 0.5, 0.9, 0.999999];
+    let ps: &[f64] = &[1e-12, 1e-9, 1e-6, 0.01, 0.1, 0.3, 0.5, 0.9, 0.999999, 1.0 - 1e-12, 0.9999999999999999];
     let s_count: u64 = if a.thorough { 1000 } else { 60 };
     let base = 10_000;
     let mut cfg = 0u64;
@@ -166,8 +166,21 @@ pub fn run_c16(a: &Args) {
                     let mean = total_edges / s_count as f64;
                     let mu = p * pairs;
                     let allowance = mu / (n as f64 - 1.0) + 6.0 * (pairs * p * (1.0 - p) / s_count as f64).sqrt();
-                    ctx::maxf("max_mean_deviation_over_allowance", if allowance > 0.0 { (mean - mu).abs() / allowance } else { 0.0 });
-                    if (mean - mu).abs() > allowance {
+                    // with fewer than 50 expected edges in total the count is Poisson, not normal:
+                    // the verdict is then an exact tail probability below 1e-9 at the ends of the
+                    // property's own relative allowance
+                    let lam = mu * s_count as f64;
+                    let rel = 1.0 / (n as f64 - 1.0);
+                    let outside = if lam * (1.0 + rel) < 50.0 {
+                        ctx::count("gnp:mean-tested-with-exact-poisson-tail");
+                        poisson_upper_tail(total_edges as u64, lam * (1.0 + rel)) < 1e-9 || poisson_lower_tail(total_edges as u64, lam * (1.0 - rel).max(0.0)) < 1e-9
+                    } else {
+                        (mean - mu).abs() > allowance
+                    };
+                    if lam * (1.0 + rel) >= 50.0 {
+                        ctx::maxf("max_mean_deviation_over_allowance", if allowance > 0.0 { (mean - mu).abs() / allowance } else { 0.0 });
+                    }
+                    if outside {
                         ctx::violation(
                             &format!("C16|fast_gnp_random_graph|mean-edge-count|{}", kind),
                             "mean number of edges over the seeds is not p x (number of possible pairs)",
@@ -325,6 +338,47 @@ pub fn run_c16(a: &Args) {
         ctx::count("gnp:extreme-first-word-seeds");
         ctx::nontrivial(0xE57);
     }
+    // ---- probabilities so small that 1 - p rounds to 1 (p <= 2^-54), down to the smallest
+    // subnormal: still inside (0,1), so the call must succeed (with an edgeless graph, in practice)
+    let base5 = 50_000;
+    let mut cfg5 = 0u64;
+    for p in [1.2e-16, 1.1102230246251565e-16, 5.6e-17, 5.5e-17, 1e-17, 1e-30, 1e-100, 1e-300, f64::MIN_POSITIVE, 5e-324] {
+        for directed in [false, true] {
+            let this = base5 + cfg5;
+            cfg5 += 1;
+            if !ctx::mine(this) {
+                continue;
+            }
+            let kind = if directed { "directed" } else { "undirected" };
+            ctx::case_desc(json!({"fast_gnp_random_graph": {"p": format!("{:e}", p), "directed": directed, "n": [0, 1, 2, 10, 300], "seeds": 20}}));
+            'tiny: for n in [0i32, 1, 2, 10, 300] {
+                for s in 0..20u64 {
+                    let seed = mix(a.seed ^ 0x7191, mix(this, s));
+                    ctx::eval(1);
+                    // a call that never returns here also allocates without bound: keep the
+                    // step small so that the CPU watchdog or the address-space limit ends it
+                    match guard("fast_gnp_random_graph", || random::fast_gnp_random_graph(n, p, directed, Some(seed))) {
+                        Err(c) => {
+                            ctx::violation(&format!("C16|fast_gnp_random_graph|{}|{}", c.class(), kind), "fast_gnp_random_graph panicked for a valid p", json!({"n": n, "p": format!("{:e}", p), "seed": seed, "caught": c.json()}));
+                            break 'tiny;
+                        }
+                        Ok(Err(e)) => {
+                            ctx::violation(&format!("C16|fast_gnp_random_graph|error:{}|{}", err_name(&e.kind), kind), "fast_gnp_random_graph failed for a valid p", json!({"n": n, "p": format!("{:e}", p), "seed": seed, "message": e.message}));
+                            break 'tiny;
+                        }
+                        Ok(Ok(g)) => {
+                            if let Err((class, det)) = structure(&g, n, directed) {
+                                ctx::violation(&format!("C16|fast_gnp_random_graph|{}|{}", class, kind), "G(n,p) structure at a probability below 2^-53", json!({"n": n, "p": format!("{:e}", p), "seed": seed, "detail": det}));
+                                break 'tiny;
+                            }
+                        }
+                    }
+                }
+            }
+            ctx::count("gnp:probabilities-below-2^-53");
+            ctx::nontrivial(mix(this, 0x7191));
+        }
+    }
     // ---- tiny probabilities over many seeds (arithmetic on huge skips)
     let base3 = 30_000;
     let tiny_seeds: u64 = if a.thorough { 100_000 } else { 20_000 };
@@ -363,6 +417,35 @@ pub fn run_c16(a: &Args) {
             }
         }
     }
+}
+
+/// P(X >= k) for X ~ Poisson(lam), lam < ~700
+fn poisson_upper_tail(k: u64, lam: f64) -> f64 {
+    if k == 0 {
+        return 1.0;
+    }
+    1.0 - poisson_cdf(k - 1, lam)
+}
+
+/// P(X <= k) for X ~ Poisson(lam)
+fn poisson_lower_tail(k: u64, lam: f64) -> f64 {
+    poisson_cdf(k, lam)
+}
+
+fn poisson_cdf(k: u64, lam: f64) -> f64 {
+    if lam <= 0.0 {
+        return 1.0;
+    }
+    let mut term = (-lam).exp();
+    let mut sum = term;
+    for i in 1..=k.min(100_000) {
+        term *= lam / i as f64;
+        sum += term;
+        if term < 1e-300 && i as f64 > lam {
+            break;
+        }
+    }
+    sum.min(1.0)
 }
 
 // ============================================================================ C17
